@@ -109,11 +109,17 @@ Monitors(r, b) ==
       \* binding of the OPERATIONAL module: GLRRuntime run on the same tokens over the
       \* same dumped table must predict the observed result and number of solutions
       \* (a difference is a DIVERGENCE, never a verdict)
-      model == IF islat \/ cyc \/ Len(w) > 6 \/ f.n > 300 THEN [k |-> "skip", n |-> 0]
+      model == IF islat \/ cyc \/ Len(w) > 6 \/ f.n > 300 THEN [k |-> "skip", n |-> 0, amb |-> 0]
                ELSE LET G == RunP(T, w, r.partial)
+                        fin == Len(G.acc) > 0 /\ ~G.abort /\ ~G.hang
                     IN [k |-> IF G.abort \/ G.hang THEN "abort" ELSE IF Len(G.acc) > 0 THEN "ok" ELSE "err",
-                        n |-> IF Len(G.acc) > 0 /\ ~G.abort /\ ~G.hang THEN Solutions(G) ELSE 0]
-      opdiv == model.k # "skip" /\ r.gres.k \in {"ok", "err"} /\ (model.k # r.gres.k \/ (gok /\ model.n # f.n))
+                        n |-> IF fin THEN Solutions(G) ELSE 0,
+                        amb |-> IF fin THEN Ambiguities(G) ELSE 0]
+      opdiv == model.k # "skip" /\ r.gres.k \in {"ok", "err"}
+               /\ (model.k # r.gres.k \/ (gok /\ (model.n # f.n \/ model.amb # f.amb)))
+      \* Forest::ambiguities against Forest::solutions ("if there is > 1 trees in the forest there
+      \* are ambiguities", and only then); no listed property speaks of it: DIVERGENCE
+      ambdiv == IF gok /\ ~cyc /\ ((f.amb = 0) # (f.n = 1)) THEN {<<"ambiguities_vs_solutions", f.amb, f.n>>} ELSE {}
       \* twin records: b is the record this one is a variation of (b.iid = -1: none)
       twin == IF "twin" \in DOMAIN r.meta /\ b.iid = r.iid /\ b.id = r.id THEN r.meta.twin ELSE ""
       bok == b.gres.k = "ok"
@@ -144,7 +150,7 @@ Monitors(r, b) ==
                              THEN {<<"partial_loses_tree">>} ELSE {})
                   ELSE {})
   IN [cyclic |-> cyc, opdiv |-> opdiv, opmodel |-> model, c03 |-> c03, c07 |-> c07, c12 |-> c12, c13 |-> c13, c15 |-> c15,
-      c14 |-> c14, gp |-> gp,
+      c14 |-> c14, gp |-> gp \cup ambdiv, amb |-> f.amb,
       sent |-> sent, ok |-> gok, n |-> f.n, nexp |-> nexp, inscope |-> inScope, ntok |-> Len(w),
       lrran |-> lrran]
 
